@@ -48,6 +48,8 @@ def _work(args):
            "paths": res.paths, "dropped": res.dropped, "notes": res.notes, "called": res.called, "obligations": []}
     if res.status == "ok":
         out["requires_sat"] = check_satisfiable(eng.facts + eng.requires_pc)
+        from .engine import exits_reachable
+        out["exits"] = exits_reachable(eng.facts, getattr(eng, "exit_pcs", []))
         _OBS = res.obligations
         import multiprocessing as mp
         ctx = mp.get_context("fork")
@@ -74,7 +76,7 @@ if __name__ == "__main__":
     quals = sys.argv[2:] or [q for q, c in reg.contracts.items() if not c.assumed]
     results, dt = verify(mods, quals)
     for r in results:
-        print("==", r["qualname"], r["status"], r["reason"], "paths", r["paths"], "requires", r.get("requires_sat"))
+        print("==", r["qualname"], r["status"], r["reason"], "paths", r["paths"], "requires", r.get("requires_sat"), "exits", r.get("exits"))
         for o in r["obligations"]:
             if o["verdict"] != "proved" or os.environ.get("V"):
                 print("   ", o["verdict"], o["id"], "L%s" % o["line"], o["time"], "[%s]" % o["backend"][:40], o["desc"][:150], o["trace"])
